@@ -6,20 +6,33 @@
  * parsec_class_initialize establishes it for every class it initialises (h_obj.c, section 1); the macros skip
  * parsec_class_initialize when cls_initialized != 0, so the class invariant
  *   Inv  cls_initialized == 1  ==>  both chain arrays are non-NULL and NULL-terminated
- * must hold for every class descriptor, including the statically "pre-initialised" parsec_object_t_class.
+ * must hold for every class descriptor, including the statically "pre-initialised" parsec_object_t_class
+ * (it did not before /repo commit ea7592a: both arrays were NULL and construct / release crashed).
+ * The base class has no constructor and no destructor: its chains are empty, and the life cycle of such an object
+ * is count 1 -> RETAIN 2 -> RELEASE 1 -> RELEASE 0: obj_release runs once (no destructor to call), storage freed
+ * exactly when it came from PARSEC_OBJ_NEW.
  */
 #include "verif.h"
 #define VERIF_RG_DEFAULT_HOOKS
 #include "verif_rg.h"
 #include "parsec/parsec_config.h"
+#include <stdlib.h>
+static void verif_free(void *p);          /* ghost observation of free(), see h_obj.c */
+#define free(p) verif_free(p)
 #include "parsec/class/parsec_object.c"
+#undef free
 
-struct vin { uint8_t use_new; } vin;
+struct vin { uint8_t unused; } vin;   /* no symbolic input: both cases are executed (concrete control flow, see h_obj.c) */
 #include "verif_vin.h"
+
+static void *g_watch; static int g_watch_freed, g_other_freed;
+static void verif_free(void *p) { if (p != NULL) { if (p == g_watch) g_watch_freed++; else g_other_freed++; } free(p); }
 
 static parsec_object_t  g_static_obj;
 static parsec_object_t *w_new(void) { return PARSEC_OBJ_NEW(parsec_object_t); }
 static void w_construct(parsec_object_t *o) { PARSEC_OBJ_CONSTRUCT(o, parsec_object_t); }
+static void w_destruct(parsec_object_t *o) { PARSEC_OBJ_DESTRUCT(o); }
+static void w_retain(parsec_object_t *o) { PARSEC_OBJ_RETAIN(o); }
 static parsec_object_t *w_release(parsec_object_t *o) { PARSEC_OBJ_RELEASE(o); return o; }
 
 void h_base_class(void)
@@ -29,13 +42,37 @@ void h_base_class(void)
     /* PRE of run_constructors / run_destructors for an object of this class (the macros skip parsec_class_initialize) */
     int inv = V_IMPLIES(cls->cls_initialized == 1, cls->cls_construct_array != NULL && cls->cls_destruct_array != NULL);
     V_ASSERT(inv, "C34.parsec_object_t_class.inv.preinitialized_base_class_has_null_terminated_chain_arrays");
-    if (inv) {   /* without it the real code dereferences NULL (parsec_object.h:433 / :455); nothing sensible to check beyond */
+    if (inv) for (int use_new = 0; use_new < 2; use_new++) {   /* without it the real code dereferences NULL (parsec_object.h:433 / :455); nothing sensible to check beyond */
+        V_ASSERT(cls->cls_initialized == 1 && cls->cls_construct_array[0] == NULL && cls->cls_destruct_array[0] == NULL,
+                 "C34.parsec_object_t_class.inv.base_class_chains_are_empty");
+        parsec_construct_t *ca = cls->cls_construct_array; parsec_destruct_t *da = cls->cls_destruct_array;
         parsec_object_t *o;
-        if (vin.use_new) { o = w_new(); V_ASSUME(o != NULL); }
-        else { o = &g_static_obj; w_construct(o); }      /* pointer check inside the real parsec_obj_run_constructors */
+        if (use_new) {
+            o = w_new(); V_ASSUME(o != NULL);
+            V_ASSERT(o->obj_release == &parsec_obj_destruct_and_free, "C34.parsec_obj_new.post.base_class_release_is_destruct_and_free");
+        } else {
+            o = &g_static_obj; w_construct(o);           /* pointer check inside the real parsec_obj_run_constructors */
+            V_ASSERT(o->obj_release == &parsec_obj_destruct, "C34.PARSEC_OBJ_CONSTRUCT.post.base_class_release_is_destruct_only");
+        }
+        g_watch = o; g_watch_freed = 0; g_other_freed = 0;
         V_ASSERT(o->obj_reference_count == 1 && o->obj_class == cls, "C34.PARSEC_OBJ_CONSTRUCT.post.base_class_object_count_1");
-        parsec_object_t *p = w_release(o);               /* pointer check inside the real parsec_obj_run_destructors */
+        V_ASSERT(cls->cls_construct_array == ca && cls->cls_destruct_array == da && num_classes == 0,
+                 "C34.PARSEC_OBJ_CONSTRUCT.post.preinitialized_base_class_not_initialised_again");
+        w_retain(o);
+        V_ASSERT(o->obj_reference_count == 2, "C34.PARSEC_OBJ_RETAIN.post.base_class_object_count_plus_1");
+        parsec_object_t *p = w_release(o);
+        V_ASSERT(p == o && g_watch_freed == 0 && o->obj_reference_count == 1,
+                 "C34.PARSEC_OBJ_RELEASE.post.base_class_object_not_last_reference_nothing_destroyed");
+        p = w_release(o);                                /* pointer check inside the real parsec_obj_run_destructors */
         V_ASSERT(p == NULL, "C34.PARSEC_OBJ_RELEASE.post.base_class_object_last_reference_pointer_nulled");
+        V_ASSERT(g_watch_freed == (use_new ? 1 : 0) && g_other_freed == 0,
+                 "C34.parsec_obj_destruct_and_free.post.base_class_object_freed_once_iff_from_new");
+        if (!use_new) {                              /* explicit PARSEC_OBJ_DESTRUCT of a re-constructed object */
+            w_construct(o);
+            V_ASSERT(o->obj_reference_count == 1, "C34.PARSEC_OBJ_CONSTRUCT.post.base_class_object_reconstruct_count_1");
+            w_destruct(o);
+            V_ASSERT(g_watch_freed == 0 && g_other_freed == 0, "C34.PARSEC_OBJ_DESTRUCT.post.base_class_object_storage_not_freed");
+        }
     }
     V_CANARY("base_class");
 }
